@@ -90,6 +90,15 @@ META = {
         rule="run = one tape: (role, negotiation, number of pings and their timeouts, pong policy, unsolicited pongs, CloseRead vs reader, inbound pings and messages with fragmentation, writers, capacities/chunking, schedule). Non-trivial = every run (at least one ping in one direction); distinct = distinct event-log SHA-256.",
         real=REAL, stub=STUB + RAW, assumptions=COMMON_ASSUME,
     ),
+    "C10": dict(
+        level="exploration",
+        level_text="Seeded simulation on the fake clock of one real endpoint (either role, with/without compression) executing a program of 3-14 calls (Read, Reader+reads, Write, two-chunk Writer, Ping) each with its own context, cancelled immediately after the call returned, by a timer 1 ms..40 s later, by a timeout that fires later, or never, with idle periods of up to 20 s in between so that those cancellations fire while later calls run or while the connection is idle; inbound messages are fragmented with pings in between (handleControl's derived contexts). The run ends with a full round trip after every context has ended, or with a call whose context ends (deadline or cancel) while the simulator holds it blocked in transport I/O (message withheld / peer not reading / pong withheld), or with an already-cancelled context. Sampling, not proof.",
+        level_note="'Connection is closed' is asserted only when the simulator saw the call blocked in transport I/O at the instant the context ended (the library documents closing for I/O; Ping's wait for a pong demonstrably does not close). An already-cancelled context only has to terminate.",
+        technique="deterministic simulation: fake clock + scripted peer that withholds/releases I/O, continuous connection-alive monitor",
+        design_ref="DESIGN.md 6 C10",
+        rule="run = one tape: (role, negotiation, flavour reader/ping, per call: kind, cancellation mode and delay, idle time, message size, fragmentation, interleaved pings; terminal kind; chunk policies; schedule). Non-trivial = every run; distinct = distinct event-log SHA-256.",
+        real=REAL, stub=STUB + RAW, assumptions=COMMON_ASSUME,
+    ),
 }
 
 NOT_APPLICABLE = [
